@@ -20,6 +20,7 @@ import (
 	"encoding/json"
 	"errors"
 	"fmt"
+	"github.com/mimiro-io/datahub/internal/verifhook"
 	"strings"
 	"sync"
 
@@ -110,7 +111,10 @@ type UpdateDatasetConfig struct {
 }
 
 func (dsm *DsManager) CreateDataset(name string, createDatasetConfig *CreateDatasetConfig) (*Dataset, error) {
+	verifhook.LockWait("dsm")
 	dsm.lock.Lock()
+	verifhook.LockHeld("dsm")
+	defer verifhook.LockFree("dsm")
 	defer dsm.lock.Unlock()
 	exists := dsm.IsDataset(name)
 	if exists {
@@ -128,6 +132,7 @@ func (dsm *DsManager) CreateDataset(name string, createDatasetConfig *CreateData
 	if err != nil {
 		return nil, err
 	}
+	verifhook.Point("dsm.create.afterNextID")
 	if createDatasetConfig != nil {
 		ds.ProxyConfig = createDatasetConfig.ProxyDatasetConfig
 		ds.PublicNamespaces = createDatasetConfig.PublicNamespaces
@@ -142,6 +147,7 @@ func (dsm *DsManager) CreateDataset(name string, createDatasetConfig *CreateData
 
 	dsm.store.datasets.Store(name, ds)
 	dsm.store.datasetsByInternalID.Store(ds.InternalID, ds)
+	verifhook.Point("dsm.create.afterRecord")
 
 	// need to add the event publisher topic
 	dsm.logger.Infof("Registering dataset." + name)
@@ -155,6 +161,7 @@ func (dsm *DsManager) CreateDataset(name string, createDatasetConfig *CreateData
 	if err != nil {
 		return ds, err
 	}
+	verifhook.Point("dsm.create.afterMeta")
 
 	// making sure the event is triggered
 	dsm.eb.Emit(context.Background(), "dataset.core.Dataset", nil)
@@ -163,7 +170,10 @@ func (dsm *DsManager) CreateDataset(name string, createDatasetConfig *CreateData
 }
 
 func (dsm *DsManager) UpdateDataset(name string, config *UpdateDatasetConfig) (*Dataset, error) {
+	verifhook.LockWait("dsm")
 	dsm.lock.Lock()
+	verifhook.LockHeld("dsm")
+	defer verifhook.LockFree("dsm")
 	defer dsm.lock.Unlock()
 	if name == datasetCore {
 		return nil, errors.New("cannot update " + datasetCore)
@@ -174,7 +184,10 @@ func (dsm *DsManager) UpdateDataset(name string, config *UpdateDatasetConfig) (*
 	}
 
 	ds := dsm.GetDataset(name)
+	verifhook.LockWait("ds:" + name)
 	ds.WriteLock.Lock()
+	verifhook.LockHeld("ds:" + name)
+	defer verifhook.LockFree("ds:" + name)
 	defer ds.WriteLock.Unlock()
 
 	// new ID means rename
@@ -196,6 +209,7 @@ func (dsm *DsManager) UpdateDataset(name string, config *UpdateDatasetConfig) (*
 		if err != nil {
 			return nil, err
 		}
+		verifhook.Point("dsm.rename.afterMove")
 
 		// update in local cache
 		dsm.store.datasets.Delete(name)
@@ -223,6 +237,7 @@ func (dsm *DsManager) UpdateDataset(name string, config *UpdateDatasetConfig) (*
 		if err != nil {
 			return nil, err
 		}
+		verifhook.Point("dsm.rename.afterTombstone")
 		entity.IsDeleted = false
 		entity.ID = dsInfo.DatasetPrefix + ":" + newName
 		entity.Properties[dsInfo.NameKey] = newName
@@ -230,6 +245,7 @@ func (dsm *DsManager) UpdateDataset(name string, config *UpdateDatasetConfig) (*
 		if err != nil {
 			return nil, err
 		}
+		verifhook.Point("dsm.rename.afterMeta")
 		dsm.eb.Emit(context.Background(), "dataset.core.Dataset", nil)
 	}
 	return ds, nil
@@ -237,7 +253,10 @@ func (dsm *DsManager) UpdateDataset(name string, config *UpdateDatasetConfig) (*
 
 // DeleteDataset deletes dataset if it exists
 func (dsm *DsManager) DeleteDataset(name string) error {
+	verifhook.LockWait("dsm")
 	dsm.lock.Lock()
+	verifhook.LockHeld("dsm")
+	defer verifhook.LockFree("dsm")
 	defer dsm.lock.Unlock()
 	if name == datasetCore {
 		return errors.New("cannot delete " + datasetCore)
@@ -260,6 +279,7 @@ func (dsm *DsManager) DeleteDataset(name string) error {
 	if err != nil {
 		return err
 	}
+	verifhook.Point("dsm.delete.afterRecord")
 
 	// record we deleted it.
 	// swap map out with new modified copy of map to avoid concurrent read/write issues which can occur if
@@ -274,6 +294,7 @@ func (dsm *DsManager) DeleteDataset(name string) error {
 	if err != nil {
 		return err
 	}
+	verifhook.Point("dsm.delete.afterDeletedSet")
 
 	dsm.eb.UnregisterTopic(name) // unregister event-handler on this topic. Note that subscriptions are left.
 
@@ -288,6 +309,7 @@ func (dsm *DsManager) DeleteDataset(name string) error {
 	if err != nil {
 		return err
 	}
+	verifhook.Point("dsm.delete.afterMeta")
 	dsm.eb.Emit(context.Background(), "dataset.core.Dataset", nil)
 
 	// fixme: schedule background job for cleaning up
